@@ -671,6 +671,27 @@ func adHex(s string) []byte {
 
 var adHungRuns int32
 
+// adRetried summarises an unfinished first attempt: which parties returned successfully and how many messages each party
+// emitted (a party that finished while others starve = lost messages; nobody finished = slowness or a stalled protocol).
+func adRetried(t int, phase, ad string, lines []obj) obj {
+	finished := []int{}
+	emits := map[string]int{}
+	handed := 0
+	for _, l := range lines {
+		switch l["e"] {
+		case "ret":
+			if ok, _ := l["ok"].(bool); ok {
+				finished = append(finished, l["p"].(int))
+			}
+		case "emit":
+			emits[strconv.Itoa(l["p"].(int))]++
+		case "handed":
+			handed++
+		}
+	}
+	return obj{"e": "retried", "t": t, "ph": phase, "ad": ad, "finished": finished, "emits": emits, "handed": handed}
+}
+
 func adPanicked(lines []obj) bool {
 	for _, l := range lines {
 		if l["e"] == "panic" {
@@ -706,7 +727,7 @@ func adSessionExec(s adSession, em *emitter, maxHung int) {
 			// a run that does not finish is repeated once (before the repair "messages queued by the protocol are still sent
 			// when the protocol ends" the adapter lost the last messages of a party that finished in a burst under load);
 			// the engine reports how often this was needed
-			em.lines([]obj{{"e": "retried", "t": s.KeygenT, "ph": "keygen", "ad": s.Adapter}})
+			em.lines([]obj{adRetried(s.KeygenT, "keygen", s.Adapter, lines)})
 			lines, outs, ok, late = adRunPhase(s.KeygenT, s.Adapter, s.IDs, s.Thr, "keygen", nil, nil, nil, s.KeygenProbe, adDur(s.KeygenMs, def))
 		}
 		em.lines(lines)
@@ -761,7 +782,7 @@ func adSessionExec(s adSession, em *emitter, maxHung int) {
 		}
 		lines, _, _, late := adRunPhase(sg.T, s.Adapter, s.IDs, s.Thr, "sign", shares, adHex(sg.Digest), others, sg.Probe, adDur(sg.TimeoutMs, def))
 		if late && sg.TimeoutMs <= 0 && !adPanicked(lines) {
-			em.lines([]obj{{"e": "retried", "t": sg.T, "ph": "sign", "ad": s.Adapter}})
+			em.lines([]obj{adRetried(sg.T, "sign", s.Adapter, lines)})
 			lines, _, _, late = adRunPhase(sg.T, s.Adapter, s.IDs, s.Thr, "sign", shares, adHex(sg.Digest), others, sg.Probe, adDur(sg.TimeoutMs, def))
 		}
 		em.lines(lines)
